@@ -364,10 +364,14 @@ func (ch c10) runCase(c *core.Ctx, envPlain, envAuth *hs.Env, k c10case, idx int
 	}
 	probeProg := &hs.Prog{Stmts: []*hs.Stmt{{ID: "probe", Cols: textCols(1), Ops: []hs.Op{{K: "row", Vals: []any{"p"}}, {K: "complete", Tag: "SELECT 1"}}}}}
 	copyProg := &hs.Prog{Stmts: []*hs.Stmt{{ID: "copy", Cols: textCols(1), Ops: []hs.Op{{K: "copy", Copy: &hs.CopyPlan{Format: wire.TextFormat, MaxReads: -1, OnErr: "propagate"}}}}}}
+	// the same COPY read through the library's binary row reader
+	copyBinProg := &hs.Prog{Stmts: []*hs.Stmt{{ID: "copy", Cols: wire.Columns{{Name: "c0", Oid: oid.T_int4, Width: 4}}, Ops: []hs.Op{{K: "copy", Copy: &hs.CopyPlan{Format: wire.BinaryFormat, MaxReads: -1, OnErr: "propagate", Binary: true}}}}}}
 	sess := &hs.Sess{Default: func(q string) *hs.Prog {
 		switch {
 		case q == "c":
 			return copyProg
+		case q == "cb":
+			return copyBinProg
 		case q == "e":
 			return &hs.Prog{Err: &hs.ErrSpec{Base: "parse error", Wraps: []hs.Wrap{{K: 'c', S: "42601"}}}}
 		}
@@ -548,7 +552,19 @@ func (ch c10) runCase(c *core.Ctx, envPlain, envAuth *hs.Env, k c10case, idx int
 			return
 		}
 	case "copy":
-		if _, ok := expect("COPY query", q("c"), "TG"); !ok {
+		if over && idx%3 == 1 {
+			// the handler reads rows through the binary row reader, and the oversized message is the first one
+			// of the stream or follows the first bytes of the file header
+			if _, ok := expect("COPY query (binary row reader)", q("cb"), "TG"); !ok {
+				return
+			}
+			if idx%2 == 0 && k.Eff >= 5 {
+				if _, ok := expect("first bytes of the COPY file header", pg.CopyData([]byte("PGCOP")), ""); !ok {
+					return
+				}
+			}
+			c.Count("oversized_message_at_the_start_of_a_binary_copy_stream", 1)
+		} else if _, ok := expect("COPY query", q("c"), "TG"); !ok {
 			return
 		}
 		inCopy = true
